@@ -33,8 +33,8 @@ def make_ctx(spec: dict, all_visible: bool = False) -> explore.Ctx:
         return session.two_tables_setup(a, b)
 
     def judge(x: world.Execution, c: Counter, choices):
-        rp = {'kind': 'session', 'spec': spec, 'choices': list(x.choices) if not (choices and choices[0] == 'priority') else None,
-              'policy': choices if (choices and choices[0] == 'priority') else None, 'all_visible': all_visible}
+        rp = {'kind': 'session', 'spec': spec, 'choices': list(x.choices) if not (choices and str(choices[0]).startswith('priority')) else None,
+              'policy': choices if (choices and str(choices[0]).startswith('priority')) else None, 'all_visible': all_visible}
         for k, m in session.judge_liveness(x, n):
             c.violate(f'C09:{k}', f'[{name}] {m}', rp)
         for k, m in session.judge_conversation(x):
@@ -84,7 +84,7 @@ def run_item(item: dict, workers: int) -> Counter:
     else:
         explore.bounded(ctx, item.get('d', 0), workers, c)
         if item.get('priority'):
-            explore.priority(ctx, PRIORITY_NAMES, c)
+            explore.priority(ctx, PRIORITY_NAMES, c, workers=workers)
     c.inc('scenarios')
     # schedule independence of the log (C08) within this scenario
     sigs = c.sets.get(f'sig:{ctx.name}', set())
@@ -151,6 +151,8 @@ def replay(d: dict):
     ctx = make_ctx(spec, d.get('all_visible', False))
     c = Counter()
     if d.get('policy'):
+        if d['policy'][0] == 'priority-deep':
+            ctx.all_visible = True
         x = explore.run_once(ctx, [], policy=prims.FairPolicy() if d['policy'][1] == '@fair' else prims.PriorityPolicy(d['policy'][1]))
         ctx.judge(x, c, d['policy'])
     elif d.get('choices') is None:
